@@ -215,12 +215,13 @@ Definition pln_actions (p : spln) : list sact :=
 
 (* ---- the operations of a vault that write (C13/C14 quantify over lists of them) ----
    An Update* carries what the UPDATE statement / patch binds: the object's id, its state triple,
-   and for a plan the reason, for an action the attempts. *)
+   and for a plan the reason, for an action the attempts; [pid] is the plan id the object carries
+   (GetPlanID: the cosmosdb partition key; sqlite does not look at it). *)
 Inductive op :=
 | OCreate (p : spln)
 | OUpdatePlan (id : uid) (rs : reason) (st : state) (sub : Z)   (* sub: the SubmitTime of the object handed in *)
-| OUpdateBlock (id : uid) (st : state)
-| OUpdateChecks (id : uid) (st : state)
-| OUpdateSequence (id : uid) (st : state)
-| OUpdateAction (id : uid) (st : state) (atts : list attempt)
+| OUpdateBlock (pid id : uid) (st : state)
+| OUpdateChecks (pid id : uid) (st : state)
+| OUpdateSequence (pid id : uid) (st : state)
+| OUpdateAction (pid id : uid) (st : state) (atts : list attempt)
 | ODelete (id : uid).
